@@ -1,0 +1,82 @@
+//go:build verif
+
+package graph
+
+import (
+	"cmp"
+	"fmt"
+	"slices"
+
+	openfgav1 "github.com/openfga/api/proto/openfga/v1"
+)
+
+// VerifBuildStructure mirrors Build without assigning weights.
+func (wgb *WeightedAuthorizationModelGraphBuilder) VerifBuildStructure(model *openfgav1.AuthorizationModel) (*WeightedAuthorizationModelGraph, error) {
+	wb := NewWeightedAuthorizationModelGraph()
+	sortedTypeDefs := make([]*openfgav1.TypeDefinition, len(model.GetTypeDefinitions()))
+	copy(sortedTypeDefs, model.GetTypeDefinitions())
+
+	slices.SortFunc(sortedTypeDefs, func(a, b *openfgav1.TypeDefinition) int {
+		return cmp.Compare(a.GetType(), b.GetType())
+	})
+
+	for _, typeDef := range sortedTypeDefs {
+		wb.GetOrAddNode(typeDef.GetType(), typeDef.GetType(), SpecificType)
+
+		sortedRelations := make([]string, 0, len(typeDef.GetRelations()))
+		for relationName := range typeDef.GetRelations() {
+			sortedRelations = append(sortedRelations, relationName)
+		}
+
+		slices.Sort(sortedRelations)
+
+		for _, relation := range sortedRelations {
+			uniqueLabel := typeDef.GetType() + "#" + relation
+			parentNode := wb.GetOrAddNode(uniqueLabel, uniqueLabel, SpecificTypeAndRelation)
+			rewrite := typeDef.GetRelations()[relation]
+			err := wgb.parseRewrite(wb, parentNode, model, rewrite, typeDef, relation)
+			if err != nil {
+				return nil, err
+			}
+		}
+	}
+
+	return wb, nil
+}
+
+// VerifAssignWeightsInOrder mirrors AssignWeights but starts the traversal from the nodes in the given order.
+func (wg *WeightedAuthorizationModelGraph) VerifAssignWeightsInOrder(order []string) error {
+	if wg.hasRewriteOnlyCycle() {
+		return ErrModelCycle
+	}
+
+	visited := make(map[string]bool)
+	ancestorPath := make([]*WeightedAuthorizationModelEdge, 0)
+	tupleCycleDependencies := make(map[string][]*WeightedAuthorizationModelEdge)
+
+	for _, node := range order {
+		if visited[node] {
+			continue
+		}
+
+		tupleCyles, err := wg.calculateNodeWeight(node, visited, ancestorPath, tupleCycleDependencies)
+		if err != nil {
+			return err
+		}
+		if len(tupleCyles) > 0 {
+			return fmt.Errorf("%w: %d tuple cycles found without resolution", ErrTupleCycle, len(tupleCyles))
+		}
+	}
+
+	for nodeID, node := range wg.nodes {
+		if node.nodeType != SpecificType && node.nodeType != SpecificTypeWildcard && len(node.weights) == 0 {
+			return fmt.Errorf("%w: %s node does not have any terminal type to reach to", ErrInvalidModel, nodeID)
+		}
+	}
+	return nil
+}
+
+// VerifFlags exposes the two cycle flags.
+func (c CycleInformation) VerifFlags() (bool, bool) {
+	return c.hasCyclesAtCompileTime, c.canHaveCyclesAtRuntime
+}
